@@ -1,7 +1,7 @@
 // C20: stored events keep their value and are destroyed exactly once.
 // Exhaustive enumeration of operation sequences (depth k) over the storage-relevant API for a zoo of event
 // types (size / alignment / copy-move-destructor kind), on the real back-end, under ASan + UBSan.
-//   -DST_BACKEND=1 back (deque queues)  2 back (circular queues)  5 backmp11  7 backmp11 favor_compile_time
+//   -DST_BACKEND=1 back (deque queues)  2 back (circular queues)  4 back11  5 backmp11  7 backmp11 favor_compile_time
 #include <cstdio>
 #include <cstdlib>
 #include <cstring>
@@ -20,6 +20,8 @@
 #if ST_BACKEND <= 2
 #include <boost/msm/back/state_machine.hpp>
 #include <boost/msm/back/queue_container_circular.hpp>
+#elif ST_BACKEND == 4
+#include <boost/msm/back11/state_machine.hpp>
 #else
 #include <boost/msm/backmp11/state_machine.hpp>
 #include <boost/msm/backmp11/favor_compile_time.hpp>
@@ -126,6 +128,8 @@ template <class E> struct KickAct {   // submits an event from inside an action:
 #define ST_BACK(F) msm::back::state_machine<F>
 #elif ST_BACKEND == 2
 #define ST_BACK(F) msm::back::state_machine<F, msm::back::queue_container_circular>
+#elif ST_BACKEND == 4
+#define ST_BACK(F) msm::back11::state_machine<F>
 #else
 struct st_cfg : msm::backmp11::state_machine_config {
 #if ST_BACKEND == 7
@@ -192,7 +196,7 @@ template <class E> struct Runner {
     typedef ST_BACK(Front_<E>) SM;
     typedef typename AltOf<E>::type Alt;
     static bool op_ok(int op) {
-#if ST_BACKEND <= 2
+#if ST_BACKEND <= 4
         if (op == MOVEC || op == MOVEA) return false;
 #endif
         return op < NOPS;
@@ -221,7 +225,7 @@ template <class E> struct Runner {
                 case TOADEF: cur->process_event(ToADef()); break;
                 case TOSUB: cur->process_event(ToSub()); break;
                 case LEAVE: cur->process_event(Leave()); break;
-#if ST_BACKEND <= 2
+#if ST_BACKEND <= 4
                 case DRAIN: cur->execute_queued_events(); break;
                 case SINGLE: if (cur->get_message_queue_size() > 0) cur->execute_single_queued_event(); break;
                 case CLEAR: cur->get_message_queue().clear(); cur->clear_deferred_queue(); break;
